@@ -23,14 +23,20 @@ Depth == atoi(IOEnv.DEPTH)
 Thresholds == <<<<1, 4>>, <<1, 2>>, <<3, 5>>>>
 Ops == {"eval", "t1", "t2", "t3", "clone", "reimport"}
 
-VARIABLES c, obj, hist
-vars == <<c, obj, hist>>
+VARIABLES c, obj, hist, fragile
+vars == <<c, obj, hist, fragile>>
 
 Tree(i) == Cases[i].tree
 Start(i) == [p \in 1..2 |-> [n \in InfoNames(Tree(i), p) |->
                LET w == Cases[i].prof[p][n] IN [j \in 1..Len(w) |-> Frac(w[j], SumSeq(w))]]]
 
-Init == c \in 1..Len(Cases) /\ obj = Start(c) /\ hist = <<>>
+Init == c \in 1..Len(Cases) /\ obj = Start(c) /\ hist = <<>> /\ fragile = FALSE
+
+\* A truncation whose threshold EQUALS a current probability is decided by rounding in floating point once
+\* the probability is the result of an earlier rescaling (0.375 / 0.625 need not be the double 0.6): from
+\* then on the real object may legitimately be in either state, and observations are not judged.
+Tie(o, h) == \E p \in 1..2 : \E n \in DOMAIN o[p] : \E j \in 1..Len(o[p][n]) : o[p][n][j] = h
+ThresholdOf(op) == IF op = "t1" THEN Thresholds[1] ELSE IF op = "t2" THEN Thresholds[2] ELSE Thresholds[3]
 
 Observe(i, o) == LET wp == WeightProfile(o)
                  IN IF WeightsOK(wp) THEN Evaluate(Tree(i), wp) ELSE [poisoned |-> TRUE]
@@ -41,7 +47,8 @@ Step(op) ==
             ELSE IF op = "t2" THEN Clipped(obj, Thresholds[2])
             ELSE IF op = "t3" THEN Clipped(obj, Thresholds[3])
             ELSE obj
-  /\ hist' = Append(hist, [op |-> op, obs |-> IF op = "eval" THEN Observe(c, obj) ELSE [poisoned |-> TRUE]])
+  /\ fragile' = (fragile \/ (op \in {"t1", "t2", "t3"} /\ Tie(obj, ThresholdOf(op))))
+  /\ hist' = Append(hist, [op |-> op, obs |-> IF op = "eval" /\ ~fragile THEN Observe(c, obj) ELSE [poisoned |-> TRUE]])
   /\ UNCHANGED c
 
 Next == \E op \in Ops : Step(op)
